@@ -105,7 +105,9 @@ def tlc(work, module, cfg, workers=None, timeout=600, env=None, heap='6g', extra
     e = dict(os.environ)
     if stack in ('64m', '256m'):
         stack = '512m'      # deep recursion over long sequences is common in the trace specs
-    e['JAVA_TOOL_OPTIONS'] = '-Xmx%s -Xss%s' % (heap, stack)
+    jt = os.path.join(work.dir, 'jtmp')      # TLC leaves an empty tlc-* directory per run in java.io.tmpdir
+    os.makedirs(jt, exist_ok=True)
+    e['JAVA_TOOL_OPTIONS'] = '-Xmx%s -Xss%s -Djava.io.tmpdir=%s' % (heap, stack, jt)
     if env:
         e.update(env)
     t0 = time.time()
